@@ -416,6 +416,7 @@ func driveMain(args []string) {
 	prop := fs.String("prop", "", "property id")
 	tier := fs.String("tier", envOr("VERIF_TIER", "quick"), "quick|thorough")
 	scale := fs.Float64("scale", 1, "multiply run counts")
+	only := fs.String("only", "", "experiments: run only the batches whose label contains this text")
 	fs.Parse(args)
 	if *prop == "" {
 		die(2, "drive: --prop required")
@@ -457,6 +458,9 @@ func driveMain(args []string) {
 		shareLeft -= b.Share
 		if b.Runs == 0 && !(b.Bin == "fg" && os.Getenv("ZSIM_FINEGRAIN") != "") {
 			continue // batch not part of this tier
+		}
+		if *only != "" && !strings.Contains(b.Label, *only) {
+			continue
 		}
 		if b.Bin == "fg" && b.Runs == 0 {
 			b.Runs = 500
